@@ -72,3 +72,35 @@ reg(
     "One library (component types + extends + modifications); edits through the public AST API only; the expected "
     "result uses the same AST API on a never-copied fresh parse, so defects of add_/remove_ themselves are not seen.",
 )
+
+reg(
+    "C01",
+    "E1-bfs",
+    "model_checking",
+    "explicit-state BFS over cache-event histories on a real cache folder (deviation-bounded) + every prefix of a stored pickle",
+    "Every history of length <= 4 with <= 2 deviations (quick) / <= 6 with <= 3 (thorough) over parse(OK1/OK2/BAD, "
+    "expiration, always_update), module reload, version change (incl. .dirty), clock jumps, entry faults (empty, "
+    "truncated, garbage, class gone, other-version entry holding a different tree), layout faults and file faults is "
+    "executed on the real parse() with the clock and version behind seams; every returned tree is compared node for "
+    "node (types included) with the uncached parse, None iff syntax error; no row for the broken text, no None stored, "
+    ".dirty leaves the folder untouched. Plus every 16th (quick) / every (thorough) prefix of the stored pickle.",
+    "Three fixed texts; one process and one folder (sharing is C02); state abstraction buckets last_hit by the cut "
+    "points parse() compares with; pickles that load to a foreign object under the *current* version are outside the "
+    "alphabet.",
+)
+
+reg(
+    "C02",
+    "E2-sched",
+    "model_checking",
+    "stateless preemption-bounded schedule exploration of real parse() threads at every SQLite / os.remove seam",
+    "All interleavings with <= 2 preemptions (quick) / <= 3 (thorough; 3 callers with <= 2) of 2-3 real parse() calls "
+    "on one cache database that is absent, holds the text, has a wrong layout, is corrupt, or is initialised for one "
+    "caller only -- shared as threads and as processes (path aliases: separate initialized_dbs keys, same inode locks). "
+    "SQLite's own lock manager decides every BUSY; the shim turns a BUSY into an immediate error or a disabled thread by "
+    "SQLite's documented rule, which is calibrated against the real library at the start of each run. Oracle: every call "
+    "returns the uncached tree, none raises, no os.remove of a file another caller has open, database intact at the end.",
+    "Lock hold times << 5 s busy timeout (timeouts only at true deadlock); cyclic garbage of a finished caller is "
+    "collected at once; the free-running 16-process clause of the quantifier is sampling and not decided; known finding "
+    "D5:removes-database-in-use is listed in known_findings.json.",
+)
